@@ -264,7 +264,7 @@ func c19Scenario(r *R) {
 
 func c19GRPC(r *R) {
 	p := genGRPCPlan(r, true)
-	r.Sample(map[string]any{"mode": "grpc", "scenario": p.Scenario, "entries": p.Entries, "passes": p.Passes, "instances": p.Inst, "codes": fmt.Sprint(p.Codes), "slow": fmt.Sprint(p.Slow), "reset": fmt.Sprint(p.Reset), "timeout": p.Timeout.String()})
+	r.Sample(map[string]any{"mode": "grpc", "scenario": p.Scenario, "entries": p.Entries, "passes": p.Passes, "instances": p.Inst, "codes": fmt.Sprint(p.Codes), "slow": fmt.Sprint(p.Slow), "reset": fmt.Sprint(p.Reset), "timeout": p.Timeout.String(), "assertions": fmt.Sprint(p.Assert), "refuse_clients_from": p.RefuseFrom})
 	r.NonTrivial()
 	out := runGRPCPlan(r, p)
 	res := out.Res
@@ -288,8 +288,15 @@ func c19GRPC(r *R) {
 		r.Fail(cls, "Engine.Run returned %q after %d of %d samples (server statuses %v, slow %v, resets %v)", res.RunErr, len(res.Samples), out.Fired, p.Codes, p.Slow, p.Reset)
 		return
 	}
-	if len(res.Samples) != out.Fired {
-		r.Fail("sample-count/grpc", "%d calls were to be made (%d entries x %d passes), %d samples were reported (server statuses %v)", out.Fired, p.Entries, p.Passes, len(res.Samples), p.Codes)
+	if !p.Scenario && len(res.Samples) != out.Fired {
+		r.Fail("sample-count/grpc", "%d calls were to be made (%d entries x %d passes), %d samples were reported (server statuses %v, clients refused from #%d)", out.Fired, p.Entries, p.Passes, len(res.Samples), p.Codes, p.RefuseFrom)
+	} else if p.Scenario && !out.StopCertain {
+		// (a reset makes statuses, hence assertions, uncertain: every invocation makes its first call at least)
+		if len(res.Samples) < p.Passes || len(res.Samples) > p.Entries*p.Passes {
+			r.Fail("sample-count/grpc", "%d invocations of %d calls, %d samples were reported (server statuses %v, assertions %v)", p.Passes, p.Entries, len(res.Samples), p.Codes, p.Assert)
+		}
+	} else if len(res.Samples) != out.Fired {
+		r.Fail("sample-count/grpc", "%d calls were to be made (%d entries x %d passes; assertions %v end an invocation after call %d), %d samples were reported (server statuses %v)", out.Fired, p.Entries, p.Passes, p.Assert, out.Stop, len(res.Samples), p.Codes)
 	}
 }
 
